@@ -10,8 +10,10 @@ package sqlc_test
 // is turned into a violation by the driver.
 
 import (
+	"database/sql"
 	"fmt"
 	"math"
+	"os"
 	"sort"
 	"sync"
 	"syscall"
@@ -30,6 +32,12 @@ import (
 
 var rcSrv *miniredis.Miniredis
 
+// rwSrvs: two nodes for rule writers-race (a cache cluster needs two). The
+// position of a node on the ring is a function of its address, so the ports
+// are fixed per shard (VERIF_C06_SHARD=<i> replays a case of thorough shard i
+// with the same placement); a busy port falls back to a free one.
+var rwSrvs []*miniredis.Miniredis
+
 func init() {
 	logx.Disable()
 	rcSrv = miniredis.NewMiniRedis()
@@ -38,6 +46,25 @@ func init() {
 	}
 	if !redis.New(rcSrv.Addr()).Ping() { // warm the process-wide client outside any bubble
 		panic("c06: miniredis not reachable")
+	}
+	shard := 0
+	sh := os.Getenv("VERIF_C06_SHARD")
+	if sh == "" {
+		sh = os.Getenv("VERIF_SHARD")
+	}
+	fmt.Sscanf(sh, "%d", &shard)
+	for i := 0; i < 2; i++ {
+		m := miniredis.NewMiniRedis()
+		if err := m.StartAddr(fmt.Sprintf("127.0.0.1:%d", 23400+2*(shard%64)+i)); err != nil {
+			m = miniredis.NewMiniRedis()
+			if err := m.Start(); err != nil {
+				panic(err)
+			}
+		}
+		if !redis.New(m.Addr()).Ping() {
+			panic("c06: miniredis not reachable")
+		}
+		rwSrvs = append(rwSrvs, m)
 	}
 }
 
@@ -266,4 +293,270 @@ func rcGen(rt *rapid.T) rcCase {
 func TestVerif_C06_readers_race(t *testing.T) {
 	kit.Run(t, "C06", "readers-race", kit.Opts{Quick: 400, Thorough: 16000}, rcGen,
 		func(c rcCase) kit.Verdict { return rcInterp(t, c) })
+}
+
+// ---------------------------------------------------------------------------
+// rule writers-race: WRITERS running at the same time (Exec updates of possibly
+// the same rows, bare DelCache calls) through two connections over the same
+// node / the same two-node cluster, while readers only touch rows that no
+// writer of the wave names - so every key still has a sequential history and the
+// statement determines every result: a reader gets the current row, and once all
+// writers have returned (completed writes) every read returns the database's
+// current row, never a value from before. Built with the race detector.
+
+type rwWriter struct {
+	ID   int  `json:"id"`           // row 0..3
+	Off  int  `json:"of"`           // start offset, ms
+	Lat  int  `json:"la"`           // virtual duration of the statement, ms
+	Del  bool `json:"del,omitempty"` // bare DelCache of the row's keys
+	Conn int  `json:"c,omitempty"`  // which of the two connections
+}
+
+type rwWave struct {
+	Writers []rwWriter `json:"w"`
+	Readers []rcReader `json:"r,omitempty"` // rows that no writer of the wave names
+}
+
+type rwCase struct {
+	Salt    int      `json:"salt"`
+	OffMs   int      `json:"off"`
+	Cluster bool     `json:"cl,omitempty"`
+	PKs     []int64  `json:"pk"`
+	Waves   []rwWave `json:"wv"`
+}
+
+func rwInterp(t *testing.T, c rwCase) (v kit.Verdict) {
+	if len(c.PKs) != 4 || len(c.Waves) == 0 {
+		return kit.Verdict{Excluded: true}
+	}
+	for i := range c.PKs {
+		for j := 0; j < i; j++ {
+			if c.PKs[i] == c.PKs[j] {
+				return kit.Verdict{Excluded: true}
+			}
+		}
+	}
+	for _, m := range rwSrvs {
+		m.FlushAll()
+	}
+	var fail string
+	var mu sync.Mutex
+	failf := func(f string, a ...any) {
+		mu.Lock()
+		if fail == "" {
+			fail = fmt.Sprintf(f, a...)
+		}
+		mu.Unlock()
+	}
+	classes := map[string]bool{}
+	t0 := rcRealNow()
+	res := kit.Bubble(t, func() {
+		time.Sleep(time.Duration(c.OffMs) * time.Millisecond)
+		var ccs []sqlc.CachedConn
+		for i := 0; i < 2; i++ {
+			if c.Cluster {
+				conf := cache.Config{
+					{Config: redis.Config{Host: rwSrvs[0].Addr(), Type: redis.NodeType}, Weight: 100},
+					{Config: redis.Config{Host: rwSrvs[1].Addr(), Type: redis.NodeType}, Weight: 100},
+				}
+				ccs = append(ccs, sqlc.NewConn(nil, conf, cache.WithExpire(time.Minute), cache.WithNotFoundExpire(10*time.Second)))
+			} else {
+				ccs = append(ccs, sqlc.NewNodeConn(nil, redis.New(rwSrvs[0].Addr()), cache.WithExpire(time.Minute), cache.WithNotFoundExpire(10*time.Second)))
+			}
+		}
+		pkey := func(id int) string {
+			if id < 0 {
+				return "unknown primary key"
+			}
+			return fmt.Sprintf("p%d:%d", c.Salt, c.PKs[id])
+		}
+		ikey := func(id int) string { return fmt.Sprintf("i%d:%d", c.Salt, id) }
+		slotOf := func(p any) int {
+			txt := fmt.Sprint(p)
+			for id, pk := range c.PKs {
+				if fmt.Sprint(pk) == txt {
+					return id
+				}
+			}
+			return -1
+		}
+		db := map[int]rcRow{}
+		ver := 0
+		for id := 0; id < 4; id++ {
+			db[id] = rcRow{ID: c.PKs[id], Idx: id, Val: 0, Big: c.PKs[id] ^ 0x5555, F: float64(id) + 0.1, S: "r\"\\\n✓" + fmt.Sprint(id)}
+		}
+		get := func(id int, v any) error {
+			mu.Lock()
+			defer mu.Unlock()
+			row, ok := db[id]
+			if !ok {
+				return sqlc.ErrNotFound
+			}
+			*v.(*rcRow) = row
+			return nil
+		}
+		read := func(cc sqlc.CachedConn, id int, viaIdx bool) (rcRow, error) {
+			var row rcRow
+			if !viaIdx {
+				return row, cc.QueryRow(&row, pkey(id), func(_ sqlx.Conn, v any) error { return get(id, v) })
+			}
+			err := cc.QueryRowIndex(&row, ikey(id), func(p any) string { return fmt.Sprintf("p%d:%v", c.Salt, p) },
+				func(_ sqlx.Conn, v any) (any, error) {
+					if err := get(id, v); err != nil {
+						return nil, err
+					}
+					return c.PKs[id], nil
+				},
+				func(_ sqlx.Conn, v, p any) error { return get(slotOf(p), v) })
+			return row, err
+		}
+		check := func(what string, id int) {
+			for ci, cc := range ccs {
+				for _, viaIdx := range []bool{false, true} {
+					got, err := read(cc, id, viaIdx)
+					mu.Lock()
+					want := db[id]
+					mu.Unlock()
+					if err != nil || got != want {
+						failf("%s: row %d through connection %d (index: %v): got (%+v, %v), the database holds %+v", what, id, ci, viaIdx, got, err, want)
+					}
+				}
+			}
+		}
+		for id := 0; id < 4; id++ {
+			check("before the first wave", id) // and everything is cached now
+		}
+		for wi, wave := range c.Waves {
+			written := map[int]bool{}
+			for _, w := range wave.Writers {
+				written[w.ID%4] = true
+			}
+			var wg sync.WaitGroup
+			for i, w := range wave.Writers {
+				i, w := i, w
+				w.ID %= 4
+				wg.Add(1)
+				go func() {
+					defer wg.Done()
+					time.Sleep(time.Duration(w.Off) * time.Millisecond)
+					cc := ccs[w.Conn%2]
+					var err error
+					if w.Del {
+						err = cc.DelCache(pkey(w.ID), ikey(w.ID))
+					} else {
+						_, err = cc.Exec(func(sqlx.Conn) (sql.Result, error) {
+							time.Sleep(time.Duration(w.Lat) * time.Millisecond)
+							mu.Lock()
+							defer mu.Unlock()
+							ver++
+							row := db[w.ID]
+							row.Val = ver
+							db[w.ID] = row
+							return nil, nil
+						}, pkey(w.ID), ikey(w.ID))
+					}
+					if err != nil {
+						failf("wave %d writer %d %+v: returned %v", wi, i, w, err)
+					}
+				}()
+			}
+			for i, rd := range wave.Readers {
+				i, rd := i, rd
+				rd.ID %= 4
+				if written[rd.ID] {
+					continue // would be a read/write race on one key: outside the statement
+				}
+				classes["readers-of-other-rows-during-the-writes"] = true
+				wg.Add(1)
+				go func() {
+					defer wg.Done()
+					time.Sleep(time.Duration(rd.Off) * time.Millisecond)
+					got, err := read(ccs[i%2], rd.ID, rd.ViaIdx)
+					mu.Lock()
+					want := db[rd.ID]
+					mu.Unlock()
+					if err != nil || got != want {
+						failf("wave %d reader %d %+v: got (%+v, %v), the database holds %+v", wi, i, rd, got, err, want)
+					}
+				}()
+			}
+			wg.Wait()
+			for id := 0; id < 4; id++ {
+				check(fmt.Sprintf("after wave %d (all writers returned)", wi), id)
+			}
+		}
+	})
+	if rcRealNow()-t0 > 2e9 {
+		return kit.Verdict{Excluded: true, Classes: []string{"excluded-real-time-stall"}}
+	}
+	if c.Cluster {
+		classes["cluster-2"] = true
+	}
+	for _, wave := range c.Waves {
+		perRow := map[int]int{}
+		for i, a := range wave.Writers {
+			perRow[a.ID%4]++
+			for _, b := range wave.Writers[:i] {
+				if a.Off < b.Off+b.Lat+1 && b.Off < a.Off+a.Lat+1 {
+					v.NonTrivial = true // two writes in flight at the same time; every row was cached before
+					classes["overlapping-writers"] = true
+				}
+			}
+		}
+		for _, n := range perRow {
+			if n >= 2 {
+				classes["writers-of-one-row"] = true
+			}
+		}
+	}
+	for k := range classes {
+		v.Classes = append(v.Classes, k)
+	}
+	sort.Strings(v.Classes)
+	if fail != "" {
+		v.Fail = fail
+	} else if !res.OK() {
+		v.Fail = "bubble: " + res.String()
+	}
+	return v
+}
+
+func rwGen(rt *rapid.T) rwCase {
+	c := rwCase{
+		Salt:    rapid.IntRange(0, 999).Draw(rt, "salt"),
+		OffMs:   rapid.IntRange(0, 999).Draw(rt, "off"),
+		Cluster: rapid.Bool().Draw(rt, "cluster"),
+	}
+	pool := []int64{0, 1, 2, -1, 1234567, 4294967297, 1<<53 + 1, math.MaxInt64, math.MinInt64}
+	c.PKs = rapid.SliceOfNDistinct(rapid.OneOf(rapid.SampledFrom(pool), rapid.Int64()), 4, 4, rapid.ID[int64]).Draw(rt, "pk")
+	nw := rapid.IntRange(1, 3).Draw(rt, "waves")
+	for w := 0; w < nw; w++ {
+		var wave rwWave
+		n := rapid.IntRange(2, 8).Draw(rt, "writers")
+		nrows := rapid.IntRange(1, 3).Draw(rt, "rows")
+		for i := 0; i < n; i++ {
+			wave.Writers = append(wave.Writers, rwWriter{
+				ID:   rapid.IntRange(0, nrows-1).Draw(rt, "id"),
+				Off:  rapid.SampledFrom([]int{0, 0, 0, 1, 2, 5, 50, 150}).Draw(rt, "offs"),
+				Lat:  rapid.SampledFrom([]int{0, 0, 1, 5, 50, 200}).Draw(rt, "lat"),
+				Del:  rapid.IntRange(0, 4).Draw(rt, "del") == 0,
+				Conn: rapid.IntRange(0, 1).Draw(rt, "conn"),
+			})
+		}
+		nr := rapid.IntRange(0, 4).Draw(rt, "readers")
+		for i := 0; i < nr; i++ {
+			wave.Readers = append(wave.Readers, rcReader{
+				ID:     rapid.IntRange(nrows, 3).Draw(rt, "rid"),
+				ViaIdx: rapid.Bool().Draw(rt, "viaidx"),
+				Off:    rapid.SampledFrom([]int{0, 0, 1, 5, 50, 150}).Draw(rt, "roffs"),
+			})
+		}
+		c.Waves = append(c.Waves, wave)
+	}
+	return c
+}
+
+func TestVerif_C06_writers_race(t *testing.T) {
+	kit.Run(t, "C06", "writers-race", kit.Opts{Quick: 300, Thorough: 12000}, rwGen,
+		func(c rwCase) kit.Verdict { return rwInterp(t, c) })
 }
